@@ -197,6 +197,9 @@ func yyInputs(r *Result) (srcs [][]byte, tags []string) {
 	for _, c := range regressionInputs("yy") {
 		add(c, "regression")
 	}
+	for _, c := range heredocLookalikes() {
+		add(c, "heredoc-lookalike")
+	}
 	var base [][]byte
 	for _, s := range loadCorpus() {
 		if len(s.Src) < 6000 {
